@@ -79,7 +79,14 @@ def build(case):
     s1.code = np.array(case["s1"], dtype=np.int64)
     s2 = seq.GeneralSequence(alph2)
     s2.code = np.array(case["s2"], dtype=np.int64)
-    matrix = align.SubstitutionMatrix(malph1, malph2, full_matrix(case))
+    scores = np.ascontiguousarray(full_matrix(case), dtype=np.int32)
+    matrix = align.SubstitutionMatrix(malph1, malph2, scores)
+    # the caller's array is a work buffer that is reused afterwards: a SubstitutionMatrix is
+    # documented as immutable, so it must not alias it
+    try:
+        scores[...] = -777
+    except ValueError:
+        pass  # the constructor made the caller's array read-only: loud, not a wrong result
     return s1, s2, matrix
 
 
@@ -113,7 +120,21 @@ def st_matrix(k1, k2):
 
     @st.composite
     def gen(draw):
-        kind = draw(st.sampled_from(["rand"] * 4 + ["small"] * 2 + ["match"] * 4 + ["neg"] * 2 + ["zero"]))
+        kind = draw(st.sampled_from(["rand"] * 4 + ["small"] * 2 + ["match"] * 4 + ["neg"] * 2 + ["zero", "large"]))
+        if kind == "large":
+            # magnitudes around 1e6 that are *almost* symmetric (differences of a few units):
+            # any tolerance-based shortcut on the matrix would show
+            base = draw(st.lists(st.integers(1_000_000, 2_000_000), min_size=n, max_size=n))
+            signs = draw(st.lists(st.sampled_from([1, 1, -1]), min_size=n, max_size=n))
+            base = [b * sg for b, sg in zip(base, signs)]
+            delta = draw(st.lists(st.integers(-9, 9), min_size=n, max_size=n))
+            rows = shaped(base)
+            out = [[0] * k2 for _ in range(k1)]
+            for r in range(k1):
+                for c in range(k2):
+                    sym = rows[min(r, c) % k1][max(r, c) % k2] if (min(r, c) < k1 and max(r, c) < k2) else rows[r][c]
+                    out[r][c] = sym + (delta[r * k2 + c] if r > c else 0)
+            return out
         if kind == "rand":
             return shaped(draw(st.lists(st.integers(-20, 20), min_size=n, max_size=n)))
         if kind == "small":
